@@ -197,6 +197,46 @@ Section Flat.
       end.
   Proof. reflexivity. Qed.
 
+  Notation switch_loop := (switch_loop pfnames lib opts).
+
+  (* the defining equation of expand_pf (text of Model/Expand.v) *)
+  Lemma expand_pf_S f stk c fn args : expand_pf (S f) stk c fn args =
+      if negb (o_parserfns opts) then
+        Some (match args with
+              | [] => chars s_lbrace2 ++ chars fn ++ chars s_rbrace2
+              | _ => chars s_lbrace2 ++ chars fn ++ [Ch 58] ++ join_i vbar args ++ chars s_rbrace2
+              end)
+      else
+        let stk1 := stk ++ [FFn fn] in
+        let ex := fun a => option_map strip_i (expand_recurse f stk1 true a) in
+        let argn := fun n => nth n args [] in
+        match c with
+        | PfIf =>
+          match ex (argn 0%nat) with
+          | None => None
+          | Some v => option_map add_newline (match v with [] => ex (argn 2%nat) | _ => ex (argn 1%nat) end)
+          end
+        | PfIfeq =>
+          match ex (argn 0%nat), ex (argn 1%nat) with
+          | Some x, Some y =>
+            option_map add_newline (if str_eqb (codes x) (codes y) && forallb is_ch x && forallb is_ch y
+                                    then ex (argn 2%nat) else
+                                    if str_eqb (codes x) (codes y) then None else ex (argn 3%nat))
+          | _, _ => None
+          end
+        | PfSwitch =>
+          match args with
+          | [] => Some []
+          | a0 :: cases =>
+            match ex a0 with
+            | None => None
+            | Some val => option_map add_newline (switch_loop f stk1 val cases false false None None)
+            end
+          end
+        | _ => None
+        end.
+  Proof. reflexivity. Qed.
+
   Fixpoint size (e : enc) : nat :=
     match e with
     | [] => 1
@@ -643,6 +683,109 @@ Section Flat.
     unfold expand_page. rewrite (HF fuel) by lia.
     rewrite <- (plain_chars_codes (page_result_sel pre page)) at 1 by (apply page_result_sel_plain; exact Hpage).
     rewrite finalize_plain by lia. reflexivity.
+  Qed.
+
+  (** #if with plain arguments (C04): {{#if: cond | a | b}} is a, trimmed, when cond is not blank, else b, trimmed (an
+      absent argument is empty); a newline is put before a result that starts with a list or table marker. *)
+  Lemma lstrip_i_app x y : lstrip_i (x ++ y) = match lstrip_i x with [] => lstrip_i y | z => z ++ y end.
+  Proof.
+    induction x as [|i x IH]; [reflexivity|]. cbn [app lstrip_i]. destruct (sp_item i); [exact IH | reflexivity].
+  Qed.
+
+
+  Lemma strip_if_head cond : strip_i (if_head ++ cond) = if_head ++ rstrip_i cond.
+  Proof.
+    unfold strip_i. assert (Hl : lstrip_i (if_head ++ cond) = if_head ++ cond) by reflexivity. rewrite Hl.
+    unfold rstrip_i. rewrite rev_app_distr, lstrip_i_app.
+    destruct (lstrip_i (rev cond)) eqn:E.
+    - cbn. reflexivity.
+    - rewrite rev_app_distr, rev_involutive. reflexivity.
+  Qed.
+
+  Lemma plain_rstrip a : plain a = true -> plain (rstrip_i a) = true.
+  Proof. intros H. unfold rstrip_i. rewrite plain_rev. apply plain_lstrip. rewrite plain_rev. exact H. Qed.
+
+  Lemma nth_plain (l : list enc) n : forallb plain l = true -> plain (nth n l []) = true.
+  Proof.
+    revert n. induction l as [|a l IH]; intros n H; [destruct n; reflexivity|].
+    cbn in H. apply andb_true_iff in H. destruct H as [Ha Hl]. destruct n; [exact Ha | apply IH; exact Hl].
+  Qed.
+
+  Lemma nth_length_le (l : list enc) n : (length (nth n l []) <= fold_right (fun a m => (length a + m)%nat) 0%nat l)%nat.
+  Proof.
+    revert n. induction l as [|a l IH]; intros n; [destruct n; cbn; lia|].
+    destruct n; cbn [nth fold_right]; [lia | specialize (IH n); lia].
+  Qed.
+
+  Lemma lstrip_idem y : lstrip_i (lstrip_i y) = lstrip_i y.
+  Proof.
+    induction y as [|z y IHy]; [reflexivity|]. cbn [lstrip_i]. destruct (sp_item z) eqn:Ez; [exact IHy|].
+    cbn [lstrip_i]. rewrite Ez. reflexivity.
+  Qed.
+
+  Lemma rstrip_idem y : rstrip_i (rstrip_i y) = rstrip_i y.
+  Proof. unfold rstrip_i. rewrite rev_involutive, lstrip_idem. reflexivity. Qed.
+
+  Lemma rstrip_cons z y :
+    rstrip_i (z :: y) = match rstrip_i y with [] => if sp_item z then [] else [z] | r => z :: r end.
+  Proof.
+    unfold rstrip_i. cbn [rev]. rewrite lstrip_i_app.
+    destruct (lstrip_i (rev y)) as [|w ws] eqn:E.
+    - cbn [rev lstrip_i]. destruct (sp_item z); reflexivity.
+    - rewrite rev_app_distr. cbn [rev app].
+      destruct (rev ws ++ [w]) eqn:E2; [destruct (rev ws); discriminate E2 | reflexivity].
+  Qed.
+
+  Lemma lstrip_rstrip_comm c : lstrip_i (rstrip_i c) = rstrip_i (lstrip_i c).
+  Proof.
+    induction c as [|z y IH]; [reflexivity|].
+    rewrite rstrip_cons. cbn [lstrip_i]. destruct (sp_item z) eqn:Ez.
+    - rewrite <- IH. destruct (rstrip_i y) as [|r rs]; [reflexivity|]. cbn [lstrip_i]. rewrite Ez. reflexivity.
+    - rewrite rstrip_cons. destruct (rstrip_i y) as [|r rs]; cbn [lstrip_i]; rewrite Ez; reflexivity.
+  Qed.
+
+  Theorem if_plain stk ea cond more :
+    (length stk < 100)%nat -> plain cond = true -> forallb plain more = true -> o_parserfns opts = true ->
+    exists F, forall fuel, (F <= fuel)%nat ->
+      expand_T fuel stk ea ((if_head ++ cond) :: more) = Some (if_result cond more).
+  Proof.
+    intros Hdepth Hc Hm Hpf.
+    exists (length cond + fold_right (fun a m => (length a + m)%nat) 0%nat more + 20)%nat.
+    intros fuel Hf. destruct fuel as [|f]; [lia|]. destruct f as [|f']; [lia|].
+    rewrite expand_T_S. replace (Nat.leb 100 (length stk)) with false by (symmetry; apply Nat.leb_gt; exact Hdepth).
+    assert (Hp : plain (if_head ++ cond) = true) by (rewrite plain_app, Hc; reflexivity).
+    rewrite (expand_recurse_plain pfnames lib opts _ Hp) by (rewrite app_length; cbn; lia).
+    cbv beta iota zeta. rewrite strip_if_head.
+    assert (Hcodes : codes (if_head ++ rstrip_i cond) = 35 :: 105 :: 102 :: 58 :: codes (rstrip_i cond)) by reflexivity.
+    rewrite Hcodes. cbn [index_of N.eqb Pos.eqb firstn skipn].
+    assert (Hcanon : Expand.canon_pf pfnames [35; 105; 102] = [35; 105; 102]).
+    { unfold Expand.canon_pf. cbn [collapse_ws_us is_space N.eqb orb]. destruct (in_names _ pfnames); reflexivity. }
+    replace (35 =? 58) with false by reflexivity. replace (105 =? 58) with false by reflexivity.
+    replace (102 =? 58) with false by reflexivity. replace (58 =? 58) with true by reflexivity.
+    cbv beta iota. cbn [firstn]. rewrite Hcanon.
+    assert (Hcl : Expand.classify_pf pfnames [35; 105; 102] = PfIf) by reflexivity. rewrite Hcl.
+    cbn [skipn if_head chars s_if map app].
+    rewrite expand_pf_S. rewrite Hpf. cbn [negb].
+    set (c0 := lstrip_i (rstrip_i cond)).
+    assert (Hc0 : plain c0 = true) by (apply plain_lstrip, plain_rstrip; exact Hc).
+    assert (Lc0 : (length c0 <= length cond)%nat).
+    { unfold c0, rstrip_i. assert (Ll : forall y, (length (lstrip_i y) <= length y)%nat).
+      { induction y as [|z y IHy]; [cbn; lia|]. cbn [lstrip_i]. destruct (sp_item z); cbn; lia. }
+      etransitivity; [apply Ll|]. rewrite rev_length. etransitivity; [apply Ll|]. rewrite rev_length. lia. }
+    cbn [nth].
+    rewrite (expand_recurse_plain pfnames lib opts c0 Hc0) by lia.
+    cbn [option_map].
+    assert (Hstrip : strip_i c0 = strip_i cond).
+    { unfold c0, strip_i. rewrite lstrip_idem, lstrip_rstrip_comm, rstrip_idem. reflexivity. }
+    rewrite Hstrip.
+    unfold if_result.
+    destruct (strip_i cond) eqn:Es.
+    - assert (Hn := nth_plain more 1 Hm).
+      rewrite (expand_recurse_plain pfnames lib opts _ Hn) by (assert (L := nth_length_le more 1); lia).
+      reflexivity.
+    - assert (Hn := nth_plain more 0 Hm).
+      rewrite (expand_recurse_plain pfnames lib opts _ Hn) by (assert (L := nth_length_le more 0); lia).
+      reflexivity.
   Qed.
 End Flat.
 
